@@ -279,6 +279,11 @@ def x1_strip(text, log, keep_default=False):
         log.add("X1:const-&str-elided-'static-made-explicit")
         return m.group(1) + "&'static str"
     text = re.sub(r"(?m)^([ \t]*(?:pub(?:\([a-z]+\))?[ \t]+)?const[ \t]+[A-Z][A-Z0-9_]*[ \t]*:[ \t]*)&str\b", static_str, text)
+
+    def static_arr(m):
+        log.add("X1:const-&str-elided-'static-made-explicit")
+        return m.group(1) + m.group(2).replace("&str", "&'static str").replace("&[", "&'static [")
+    text = re.sub(r"(?m)^([ \t]*(?:pub(?:\([a-z]+\))?[ \t]+)?const[ \t]+[A-Z][A-Z0-9_]*[ \t]*:[ \t]*)((?:&\[&str\])|(?:\[&str; *\d+\]))", static_arr, text)
     return text
 
 
